@@ -2,6 +2,7 @@
    state (neighbour-info cache of the future resampler, overwritten attributes of the legacy one).  Definitions only. *)
 From Coq Require Import ZArith List Bool.
 From PR Require Import Base.Num Base.ListX Model.Blockwise.
+From PR Require Base.Imp.
 Import ListNotations.
 Open Scope Z_scope.
 
@@ -66,3 +67,15 @@ Definition geo_dims_ok (dims geo : list Z) : bool :=
   let data_geo_dims := filter (fun d => memb d geo) dims in             (* tuple(d for d in data.dims if d in src_geo_dims) *)
   list_eqb Z.eqb data_geo_dims geo                                       (* != src_geo_dims -> "do not match" *)
   && list_eqb Z.eqb (firstn (length geo) (skipn (zindex (hd 0 geo) dims) dims)) data_geo_dims.   (* "not consecutive" *)
+
+(* what the dimension checks read of an xarray.DataArray: dim names (as integers) and sizes *)
+Record darr := mk_darr { dd_dims : list Z; dd_shape : list Z }.
+(* tuple.index(x): position of the first occurrence; ValueError when absent *)
+Definition zindex_ok (d : Z) (l : list Z) : bool := memb d l.
+
+(* _verify_data_geo_dims, second half: every geometry dim has the size of the source geometry along it
+   (IndexError / ValueError otherwise); first = position of the first geometry dim in the data dims *)
+Definition geo_sizes_ok (shape src_shape : list Z) (first ngeo : Z) : bool :=
+  forallb (fun k => Imp.idx_ok src_shape k && Imp.idx_ok shape (first + k)
+                    && (Imp.idx 0 src_shape k =? Imp.idx 0 shape (first + k)))
+          (Imp.zrange ngeo).
